@@ -4,6 +4,7 @@ import (
 	"fmt"
 	"strconv"
 	"strings"
+	"unicode/utf8"
 
 	"fortio.org/log"
 	"grol.io/grol/ast"
@@ -275,8 +276,38 @@ func (p *Parser) ErrorLine(forPreviousToken bool) (string, int) {
 		// (note this doesn't work when the previous token in on a different line -- TODO: improve)
 		errPos -= (p.l.Pos() - p.prevPos)
 	}
+	line, errPos = excerpt(line, errPos)
 	repeat := max(0, errPos-1)
 	return line + "\n" + strings.Repeat(" ", repeat) + "^", lineNum
+}
+
+// maxErrorLineLen is how much of a (very long) source line an error message quotes.
+const maxErrorLineLen = 160
+
+// excerpt cuts a long line down to about maxErrorLineLen bytes around the error position (marking the cuts
+// with ...) and returns the position relative to the excerpt. Every error quotes its line: without this the
+// errors of one long line with many errors (say thousands of unclosed brackets) take memory quadratic in its length.
+func excerpt(line string, errPos int) (string, int) {
+	if len(line) <= maxErrorLineLen {
+		return line, errPos
+	}
+	pos := min(max(errPos, 0), len(line))
+	start := max(0, pos-maxErrorLineLen/2)
+	end := min(len(line), start+maxErrorLineLen)
+	for start > 0 && !utf8.RuneStart(line[start]) { // don't cut inside a character
+		start--
+	}
+	for end < len(line) && !utf8.RuneStart(line[end]) {
+		end++
+	}
+	prefix, suffix := "", ""
+	if start > 0 {
+		prefix = "..."
+	}
+	if end < len(line) {
+		suffix = "..."
+	}
+	return prefix + line[start:end] + suffix, errPos - start + len(prefix)
 }
 
 func (p *Parser) peekError(t token.Type) {
